@@ -1,4 +1,6 @@
-(* Run/RunC13.v — the multi-line reference (kind 1301); the model itself runs through kind 301 *)
+(* Run/RunC13.v — the multi-line reference (kind 1301; the model itself runs through kind 301), and
+   the multi-line model and reference with a TABULATED matcher (kind 1303): the harness tabulates the
+   real regex engine's find_at over the input, so model, reference and code see the same matches. *)
 From RG Require Import Base.Bytes Base.Val Model.Lines Model.SearcherCore Model.Glue Model.ScriptedMatcher
   Spec.GrepSpec Spec.MultiLineSpec Run.RunC03.
 
@@ -7,8 +9,29 @@ Definition run_ml_ref (v : val) : val :=
   let M := decode_matcher cfg (fld 1 v) in
   of_result (RunOk (ml_ref cfg (m_find_at M) (as_bytes (fld 2 v)))).
 
+(* table[p] = () | (a b) *)
+Definition decode_entry (v : val) : option (nat * nat) :=
+  match as_list v with
+  | a :: b :: _ => Some (as_nat a, as_nat b)
+  | _ => None
+  end.
+
+Definition table_matcher (t : list (option (nat * nat))) : matcher :=
+  {| m_is_match := fun _ => false; m_find_candidate := fun _ => None; m_line_term := None;
+     m_nonmatching := fun _ => false;
+     m_find_at := fun _ p => nth p t None |}.
+
+(* case: (cfg table input reply) -> (model-run reference) *)
+Definition run_ml_table (v : val) : val :=
+  let cfg := decode_cfg (fld 0 v) in
+  let M := table_matcher (map decode_entry (as_list (fld 1 v))) in
+  let s := as_bytes (fld 2 v) in
+  VL [of_result (multi_line_run cfg M (decode_reply (fld 3 v)) s);
+      of_result (RunOk (ml_ref cfg (m_find_at M) s))].
+
 Definition entry (k : N) (v : val) : option val :=
   match k with
   | 1301%N => Some (run_ml_ref v)
+  | 1303%N => Some (run_ml_table v)
   | _ => None
   end.
